@@ -22,7 +22,7 @@ import re
 import subprocess
 import sys
 
-GEN_MODULES = ["Src", "SrcMatch", "SrcExtType", "SrcLikely", "SrcParse"]
+GEN_MODULES = ["Src", "SrcMatch", "SrcExtType", "SrcLikely", "SrcParse", "SrcMacros"]
 ALLOWED_AXIOMS = {"propext", "Classical.choice", "Quot.sound"}
 FORBIDDEN = ["sorry", "admit", "axiom", "native_decide", "bv_decide", "implemented_by", "unsafe",
              "maxHeartbeats 0"]
@@ -240,7 +240,7 @@ def run(repo, root):
 
     # text-level hygiene and the statement/axiom audit
     tie_dir = os.path.join(lean_dir, "UnicLocale", "SrcTie")
-    tactic_bad = forbidden_in(os.path.join(tie_dir, "Tactic.lean")) or forbidden_in(os.path.join(tie_dir, "ParseLemmas.lean")) or forbidden_in(os.path.join(tie_dir, "FmtLemmas.lean")) or forbidden_in(os.path.join(tie_dir, "OpsLemmas.lean")) or forbidden_in(os.path.join(tie_dir, "LikelyLemmas.lean"))
+    tactic_bad = forbidden_in(os.path.join(tie_dir, "Tactic.lean")) or forbidden_in(os.path.join(tie_dir, "ParseLemmas.lean")) or forbidden_in(os.path.join(tie_dir, "FmtLemmas.lean")) or forbidden_in(os.path.join(tie_dir, "OpsLemmas.lean")) or forbidden_in(os.path.join(tie_dir, "LikelyLemmas.lean")) or forbidden_in(os.path.join(tie_dir, "MacrosLemmas.lean"))
     checked = []
     for n in built_ok:
         bad = tactic_bad or forbidden_in(os.path.join(tie_dir, tie_module(n) + ".lean"))
